@@ -20,7 +20,7 @@ ASSUMPTIONS = ["absolute tolerance 1e-6 (scaled by max(1,|r|) for SE(3) blocks t
                "reference derivative: 8th-order central differences with step 1e-5 in 50-digit arithmetic on the mpmath models of vlib/mpref.py (truncation error < 1e-30)",
                "away from half-turns Log_SO3_A is the partial derivative of the formula extended to R^{3x3} (trace and skew part); the model differentiates the same extension",
                "the logarithm derivatives are judged on tangent directions of SO(3) / SE(3) for |psi| <= pi - 1e-9 (Log is not differentiable at half turns); the entrywise R^{3x3}-extension of Log_SO3_A only where the routine uses the trace / skew-part formula (cos(angle) >= -0.98)"]
-REQUIRED_MONITORS = ["Exp_SO3_psi", "T_SO3_psi", "T_SO3_dot", "T_SO3_inv_psi", "Log_SO3_A", "Exp_SE3_h", "Log_SE3_H", "T_SO3_quat_P", "T_SO3_inv_quat_P", "fd_tie", "purity", "representation"]
+REQUIRED_MONITORS = ["Exp_SO3_psi", "T_SO3_psi", "T_SO3_dot", "T_SO3_inv_psi", "Log_SO3_A", "Exp_SE3_h", "Log_SE3_H", "T_SO3_quat_P", "T_SO3_inv_quat_P", "fd_tie", "purity", "representation", "retention", "inplace_arguments"]
 META = {
     "level_text": "Exploration: every SO(3)/SE(3) derivative routine is evaluated on seeded points (log-uniform angles down to 1e-9 and exact zero) and compared with the derivative of an independent 50-digit model of the map; held on the points generated.",
     "level_note": "absolute tolerance 1e-6; reference = mpmath model differentiated by high-order differences in 50-digit arithmetic; finite-difference tie between model and real map only for |psi| >= 1e-3.",
@@ -121,6 +121,23 @@ def _run_case(spec, ctx):
                 for q_, nz in ((P, True), (Pu, False), (Pu, True)):
                     thunks.append((name, {"function": name, "P": q_, "normalize": nz}, (lambda f=getattr(R, name), a=q_, z=nz: f(a.copy(), normalize=z))))
         purity_check(ctx, rng, thunks, mon="purity", scribble=True)
+        from vlib.oracles import retention_check, inplace_check
+        retention_check(ctx, thunks, mon="retention")
+        byname = {}
+        for name, d, _ in thunks:
+            if "arguments" in d:
+                byname.setdefault(name, []).append(tuple(np.array(x, copy=True) for x in d["arguments"]))
+            else:
+                byname.setdefault((name, d["normalize"]), []).append((np.array(d["P"], copy=True),))
+        ip = []
+        for key, sets in byname.items():
+            if len(sets) < 2:
+                continue
+            if isinstance(key, tuple):
+                ip.append((key[0], getattr(R, key[0]), sets[:6], {"normalize": key[1]}))
+            else:
+                ip.append((key, getattr(R, key), sets[:6], {}))
+        inplace_check(ctx, ip, mon="inplace_arguments")
         from vlib.oracles import representation_check
         calls = []
         for name, d, _ in thunks[:90]:
